@@ -1,0 +1,162 @@
+//go:build verif
+
+// Contracts for the deductive verifier in /verif (gocv). Comment-only file. Keys and values are abstract (bytes: key):
+// a []byte is a point of a total order, "" is its least element, len(v) == 0 <=> v == "".
+
+package unionstore
+
+// ---- the Iterator interface, as an abstract sequence with a cursor (assumed for every implementation that is handed
+// to a UnionIter; the UnionIter itself is proved to behave as one) ---------------------------------------------------
+// An iterator `it` stands for the sequence itKey(it,0..itLen-1) / itVal(it,0..itLen-1); the ghost cursor it.pos is the
+// index of the current entry. Valid/Key/Value read at the cursor, Next moves it by exactly one.
+//@ ghost field Iterator.pos int
+//@ spec func itLen(it Iterator) int
+//@ spec func itKey(it Iterator, i int) []byte
+//@ spec func itVal(it Iterator, i int) []byte
+//@ spec func itValid(it Iterator) bool { return it.pos < itLen(it) }
+//@ spec func curKey(it Iterator) []byte { return itKey(it, it.pos) }
+//@ spec func curVal(it Iterator) []byte { return itVal(it, it.pos) }
+
+// before(a, b, rev): a is yielded strictly before b by an iterator of direction rev.
+//@ spec func before(a []byte, b []byte, rev bool) bool { return ite(rev, b < a, a < b) }
+// ordered(it, rev): the sequence of it is strictly monotone in direction rev.
+//@ spec func ordered(it Iterator, rev bool) bool { return forall i int :: forall j int :: 0 <= i && i < j && j < itLen(it) ==> before(itKey(it, i), itKey(it, j), rev) }
+
+//@ func (Iterator) Valid
+//@   trusted
+//@   modifies nothing
+//@   ensures result == itValid(recv)
+
+//@ func (Iterator) Key
+//@   trusted
+//@   bytes: key
+//@   modifies nothing
+//@   ensures result == curKey(recv)
+
+//@ func (Iterator) Value
+//@   trusted
+//@   bytes: key
+//@   modifies nothing
+//@   ensures result == curVal(recv)
+
+//@ func (Iterator) Next
+//@   trusted
+//@   modifies Iterator.pos of recv
+//@   ensures result == nil ==> recv.pos == old(recv.pos) + 1
+//@   ensures result != nil ==> recv.pos == old(recv.pos)
+
+// ---- UnionIter ---------------------------------------------------------------------------------------------------
+// synced: the cached validity bits are those of the two iterators, which are distinct objects with cursors inside their
+// sequences and both strictly monotone in the direction of the union.
+//@ spec func synced(u *UnionIter) bool { return u.dirtyIt != u.snapshotIt && u.dirtyValid == itValid(u.dirtyIt) && u.snapshotValid == itValid(u.snapshotIt) &&
+//@     0 <= u.dirtyIt.pos && 0 <= u.snapshotIt.pos && ordered(u.dirtyIt, u.reverse) && ordered(u.snapshotIt, u.reverse) }
+
+// settled: what updateCur establishes. If the union is valid its current entry is
+//   - the dirty entry: a live write (non-empty value) that comes strictly before whatever the snapshot still has, or
+//   - the snapshot entry: strictly before whatever the buffer still has (so no buffered write or deletion shadows it);
+// if it is not valid both inputs are exhausted.
+//@ spec func settled(u *UnionIter) bool { return ite(u.isValid,
+//@     ite(u.curIsDirty,
+//@         u.dirtyValid && curVal(u.dirtyIt) != "" && (u.snapshotValid ==> before(curKey(u.dirtyIt), curKey(u.snapshotIt), u.reverse)),
+//@         u.snapshotValid && (u.dirtyValid ==> before(curKey(u.snapshotIt), curKey(u.dirtyIt), u.reverse))),
+//@     !u.dirtyValid && !u.snapshotValid) }
+
+//@ func (*UnionIter) dirtyNext
+//@   prop C07
+//@   bytes: key
+//@   requires iter.dirtyIt != iter.snapshotIt
+//@   modifies UnionIter.dirtyValid, Iterator.pos of iter.dirtyIt
+//@   ensures iter.dirtyValid == itValid(iter.dirtyIt)
+//@   ensures result == nil ==> iter.dirtyIt.pos == old(iter.dirtyIt.pos) + 1
+//@   ensures result != nil ==> iter.dirtyIt.pos == old(iter.dirtyIt.pos)
+//@   ensures iter.snapshotIt.pos == old(iter.snapshotIt.pos)
+
+//@ func (*UnionIter) snapshotNext
+//@   prop C07
+//@   bytes: key
+//@   requires iter.dirtyIt != iter.snapshotIt
+//@   modifies UnionIter.snapshotValid, Iterator.pos of iter.snapshotIt
+//@   ensures iter.snapshotValid == itValid(iter.snapshotIt)
+//@   ensures result == nil ==> iter.snapshotIt.pos == old(iter.snapshotIt.pos) + 1
+//@   ensures result != nil ==> iter.snapshotIt.pos == old(iter.snapshotIt.pos)
+//@   ensures iter.dirtyIt.pos == old(iter.dirtyIt.pos)
+
+// updateCur moves the cursors forward until the union is settled. Every buffered entry it steps over is a deletion
+// (empty value), and every snapshot entry it steps over has the key of a buffered entry that it stepped over or that is
+// now current (the buffered write or deletion wins).
+//@ func (*UnionIter) updateCur
+//@   prop C07
+//@   bytes: key
+//@   requires synced(iter)
+//@   modifies UnionIter.dirtyValid, UnionIter.snapshotValid, UnionIter.curIsDirty, UnionIter.isValid, Iterator.pos
+//@   ensures result == nil ==> synced(iter) && settled(iter)
+//@   ensures tombstones: forall i int :: old(iter.dirtyIt.pos) <= i && i < iter.dirtyIt.pos ==> itVal(iter.dirtyIt, i) == ""
+//@   ensures shadowed: forall i int :: old(iter.snapshotIt.pos) <= i && i < iter.snapshotIt.pos ==> exists j int :: old(iter.dirtyIt.pos) <= j && j <= iter.dirtyIt.pos && j < itLen(iter.dirtyIt) && itKey(iter.dirtyIt, j) == itKey(iter.snapshotIt, i)
+//@   ensures forward: old(iter.dirtyIt.pos) <= iter.dirtyIt.pos && old(iter.snapshotIt.pos) <= iter.snapshotIt.pos
+//@   ensures same: iter.dirtyIt == old(iter.dirtyIt) && iter.snapshotIt == old(iter.snapshotIt) && iter.reverse == old(iter.reverse)
+//@   loop 1 invariant sync: synced(iter) && iter.isValid
+//@   loop 1 invariant forward: old(iter.dirtyIt.pos) <= iter.dirtyIt.pos && old(iter.snapshotIt.pos) <= iter.snapshotIt.pos
+//@   loop 1 invariant tombstones: forall i int :: old(iter.dirtyIt.pos) <= i && i < iter.dirtyIt.pos ==> itVal(iter.dirtyIt, i) == ""
+//@   loop 1 invariant shadowed: forall i int :: old(iter.snapshotIt.pos) <= i && i < iter.snapshotIt.pos ==> exists j int :: old(iter.dirtyIt.pos) <= j && j < iter.dirtyIt.pos && j < itLen(iter.dirtyIt) && itKey(iter.dirtyIt, j) == itKey(iter.snapshotIt, i)
+//@   loop 1 step skip: iter.dirtyIt.pos == prev(iter.dirtyIt.pos) + 1 && itVal(iter.dirtyIt, prev(iter.dirtyIt.pos)) == "" &&
+//@       (iter.snapshotIt.pos == prev(iter.snapshotIt.pos) || (iter.snapshotIt.pos == prev(iter.snapshotIt.pos) + 1 && itKey(iter.snapshotIt, prev(iter.snapshotIt.pos)) == itKey(iter.dirtyIt, prev(iter.dirtyIt.pos))))
+
+//@ func NewUnionIter
+//@   prop C07
+//@   bytes: key
+//@   requires dirtyIt != snapshotIt && 0 <= dirtyIt.pos && 0 <= snapshotIt.pos && ordered(dirtyIt, reverse) && ordered(snapshotIt, reverse)
+//@   ensures result1 == nil ==> result0 != nil && synced(result0) && settled(result0) && result0.dirtyIt == dirtyIt && result0.snapshotIt == snapshotIt && result0.reverse == reverse
+
+// Next consumes the current entry (of the iterator it came from) and settles again; with `ordered` every entry that can
+// still be yielded lies strictly beyond the one just consumed.
+//@ func (*UnionIter) Next
+//@   prop C07
+//@   bytes: key
+//@   requires synced(iter) && settled(iter) && iter.isValid
+//@   ensures result == nil ==> synced(iter) && settled(iter)
+//@   ensures consumed: result == nil ==> ite(old(iter.curIsDirty), iter.dirtyIt.pos > old(iter.dirtyIt.pos), iter.snapshotIt.pos > old(iter.snapshotIt.pos))
+//@   ensures monotone: result == nil && iter.isValid ==> before(old(ite(iter.curIsDirty, curKey(iter.dirtyIt), curKey(iter.snapshotIt))), ite(iter.curIsDirty, curKey(iter.dirtyIt), curKey(iter.snapshotIt)), iter.reverse)
+
+//@ func (*UnionIter) Key
+//@   prop C07
+//@   bytes: key
+//@   modifies nothing
+//@   ensures result == ite(iter.curIsDirty, curKey(iter.dirtyIt), curKey(iter.snapshotIt))
+
+//@ func (*UnionIter) Value
+//@   prop C07
+//@   bytes: key
+//@   modifies nothing
+//@   ensures result == ite(iter.curIsDirty, curVal(iter.dirtyIt), curVal(iter.snapshotIt))
+
+//@ func (*UnionIter) Valid
+//@   prop C07
+//@   modifies nothing
+//@   ensures result == iter.isValid
+
+// ---- KVUnionStore.Get: buffer first, snapshot on a miss, an empty value is a deletion --------------------------------
+// gHas/gVal: abstract content of a source (kv/zz_contracts_verif.go). Assumed of every buffer and snapshot: Get answers
+// the entry it holds, and answers "not found" (an error for which IsErrNotFound holds) exactly when it holds none.
+//@ func (MemBuffer) Get
+//@   trusted
+//@   bytes: key
+//@   modifies nothing
+//@   ensures result1 == nil ==> gHas(recv, arg1) && result0.Value == gVal(recv, arg1)
+//@   ensures result1 != nil && tikverr.IsErrNotFound(result1) ==> !gHas(recv, arg1)
+
+//@ func (uSnapshot) Get
+//@   trusted
+//@   bytes: key
+//@   modifies nothing
+//@   ensures result1 == nil ==> gHas(recv, k) && result0.Value == gVal(recv, k)
+//@   ensures result1 != nil && tikverr.IsErrNotFound(result1) ==> !gHas(recv, k)
+
+// A successful Get returns the buffered value when the buffer has a live write for k, else the snapshot's value - and
+// never an empty one; a buffered deletion answers "not found" whatever the snapshot holds.
+//@ func (*KVUnionStore) Get
+//@   prop C07
+//@   bytes: key
+//@   modifies nothing
+//@   ensures value: result1 == nil ==> result0.Value != "" && result0.Value == ite(gHas(us.memBuffer, k), gVal(us.memBuffer, k), gVal(us.snapshot, k)) && (gHas(us.memBuffer, k) || gHas(us.snapshot, k))
+//@   ensures deleted: gHas(us.memBuffer, k) && gVal(us.memBuffer, k) == "" ==> result1 != nil
+//@   ensures live: gHas(us.memBuffer, k) && gVal(us.memBuffer, k) != "" ==> (result1 == nil || !tikverr.IsErrNotFound(result1))
